@@ -78,6 +78,27 @@ CLAIMS['C02'] = dict(
     note='Trusted: clang 14 front end/CFG; return-code list of doc/assembler-usage.md; three listed exceptions (-Y JmpErrors, two internal-consistency exits).',
     ref='5 (C02), 4 (A4, A3)')
 
+CLAIMS['C01'] = dict(
+    technique='effect analysis (MOD/must-KILL with callee summaries over the phase-partitioned call graph), who-may-write shape rules, must-pass queries',
+    text=('Decides necessary conditions of the fixpoint: the repass flag is cleared only at pass start and set everywhere '
+          'else, and controls the pass loop; every placeholder fabricated for an unknown symbol forces a repass (or an '
+          'error once symbols must be defined); values of existing symbol entries are written only through the change '
+          'detector; every core variable and every registered per-target variable (ASSUME registers, ON/OFF flags, CPU '
+          'arguments) that a pass may write is re-initialised per pass or belongs to a listed, supported class. '
+          'Termination and that encoded operands equal final symbol values are not decided; the padding/label '
+          'non-convergence is a listed known finding.'),
+    note='Trusted: clang 14 front end/CFG; the classification table of core globals in rules/reset.py (each class with a supporting check); assumes the default CPU exists.',
+    ref='5 (C01), 4 (A5, A4, A3), appendix A')
+CLAIMS['C18'] = dict(
+    technique='effect analysis (MOD/must-KILL), table exhaustiveness over all CPU switch functions',
+    text=('Decides reset completeness: every core variable written while a file is assembled is re-initialised per '
+          'file/pass or cleared at file end (or is in a listed class); each of the code generators\' CPU switch '
+          'functions sets the whole target interface that SetCPUCore() does not reset centrally, including start '
+          'address, granularity and limit of every segment it declares; registered per-target state is reset. Equality '
+          'of outputs for concrete file pairs and unregistered private generator statics are not decided.'),
+    note='Trusted: clang 14 front end/CFG; classification table in rules/reset.py.',
+    ref='5 (C18), 4 (A5, A2)')
+
 NA_REASONS = {}
 
 
